@@ -347,7 +347,7 @@ fn opt_time(der: &[u8]) -> Result<Option<Time>, ()> {
     }
 }
 
-/// @tier thorough
+/// @tier off
 /// @fn rpki::repository::x509::Time::take_opt_from
 /// @bounds UTCTime with one arbitrary month digit (second month byte);
 ///   unwind 6
@@ -376,7 +376,7 @@ fn take_opt_from_utc() {
     }
 }
 
-/// @tier thorough
+/// @tier off
 /// @fn rpki::repository::x509::Time::take_opt_from
 /// @bounds GeneralizedTime with one arbitrary month digit; unwind 6
 /// @says the optional-time decoder accepts a GeneralizedTime exactly when
@@ -713,7 +713,7 @@ fn serial_text_roundtrip_body(bytes: usize) {
     std::mem::forget(text);
 }
 
-/// @tier thorough
+/// @tier off
 /// @fn rpki::repository::x509::Serial::encode_dec rpki::repository::x509::Serial::div_assign_u8
 ///   rpki::repository::x509::Serial::from_str rpki::repository::x509::Serial::is_zero
 /// @bounds every serial number below 2^16 (two significant octets);
@@ -726,7 +726,7 @@ fn serial_text_roundtrip_body(bytes: usize) {
 #[kani::unwind(22)]
 fn serial_decimal_text_roundtrip_q() { serial_text_roundtrip_body(2); }
 
-/// @tier thorough
+/// @tier off
 /// @fn rpki::repository::x509::Serial::encode_dec rpki::repository::x509::Serial::div_assign_u8
 ///   rpki::repository::x509::Serial::from_str
 /// @bounds every serial number below 2^32 (four significant octets);
